@@ -150,6 +150,8 @@ def run(tier):
     # a result that arrives but cannot be rebuilt in the parent (remote kind: the forwarding thread is the one that rebuilds):
     # what can be obtained is still a prefix, and the stream ends
     jobs += [('PersistentRemoteWorker', 'pbad2', mux) for mux in (False, True)]
+    # inputs of different shapes (no fault at all): every result still belongs to its own input
+    jobs += [(cls, 'pmix', mux) for cls in lp.PERSISTENT for mux in (False, True)]
 
     def one(job):
         cls, scen, mux = job
